@@ -139,6 +139,29 @@ pub fn full(game: &Game) -> Map<String, Value> {
     m.insert("fifty".into(), json!(game.is_stalemate_by_fifty_move_rule()));
     m.insert("insuf".into(), json!(game.is_stalemate_by_insufficient_material()));
     m.insert("fen".into(), json!(game.to_fen()));
+    // exchange verdicts (threshold 0) of the captures, on the live game and on the same position set up afresh: SEE is a
+    // function of the position, not of how it was reached
+    let see_true = |g: &Game| -> Vec<i64> {
+        let mut v: Vec<i64> = g
+            .moves()
+            .iter()
+            .filter(|mv| mv.is_capture() && !mv.is_en_passant())
+            .filter(|mv| {
+                std::panic::catch_unwind(std::panic::AssertUnwindSafe(|| {
+                    crate::engine::see::see(g, **mv, crate::engine::eval::Eval(0))
+                }))
+                .unwrap_or(false)
+            })
+            .map(|mv| pack_move(*mv))
+            .collect();
+        v.sort_unstable();
+        v
+    };
+    m.insert("seel".into(), json!(see_true(game)));
+    m.insert(
+        "seef".into(),
+        json!(Game::from_fen(&game.to_fen()).map(|g| see_true(&g)).unwrap_or_default()),
+    );
     // the position without its counters (placement, side, rights, en-passant target), as text
     m.insert("fid".into(), json!(game.to_fen().split(' ').take(4).collect::<Vec<_>>().join(" ")));
     let ev = std::panic::catch_unwind(std::panic::AssertUnwindSafe(|| eval::eval(game).0));
